@@ -144,7 +144,8 @@ fn eval(rep: &mut Report, t: usize, s: &[u8], o: usize, b: usize, stale: usize, 
 
 /// `state`: 0 = 1-byte reads, chunk 1, `b` bytes requested before the call; 1 = as 0 but the reader has
 /// already seen the end of input (an earlier request went past it); 2 = everything arrived in one read
-/// (chunk 16384) without the end having been seen; 3 = one read and the end seen
+/// (chunk 16384) without the end having been seen; 3 = one read and the end seen; 4 = as 0 but the source
+/// fails after the data; 5 = one read, the failure already seen (error pending in the reader)
 fn eval_state(rep: &mut Report, t: usize, s: &[u8], o: usize, b: usize, stale: usize, fmask: u8, state: u8) {
     let mut stream = Vec::with_capacity(stale + s.len());
     for i in 0..stale {
@@ -157,17 +158,23 @@ fn eval_state(rep: &mut Report, t: usize, s: &[u8], o: usize, b: usize, stale: u
         if fmask & (1 << f) == 0 {
             continue;
         }
-        let src = Src::new(data.clone(), if state >= 2 { Policy::OneShot } else { Policy::Fixed(1) }, 0);
+        let one_read = state == 2 || state == 3 || state == 5;
+        let mut src = Src::new(data.clone(), if one_read { Policy::OneShot } else { Policy::Fixed(1) }, 0);
+        if state >= 4 {
+            // the data ends in a source failure instead of a clean end: the error stays parked in the reader
+            src = src.failing_at(data.len());
+        }
         let mut r = DeferredReader::from_read(src.clone());
-        r.set_chunk_size(if state >= 2 { 16384 } else { 1 });
+        r.set_chunk_size(if one_read { 16384 } else { 1 });
         let (got, pos0, pos1, blen) = sut(|| {
             if stale > 0 {
                 r.request(stale);
                 r.advance(stale);
             }
             r.request(b);
-            if state == 1 || state == 3 {
-                // look past the end once: the reader is complete from here on
+            if state == 1 || state == 3 || state == 5 {
+                // look past the end once: the reader is complete from here on (state 5: with the
+                // source's error pending)
                 r.request(s.len() + 1);
             } else if state == 2 {
                 r.request(1);
@@ -199,7 +206,7 @@ fn eval_state(rep: &mut Report, t: usize, s: &[u8], o: usize, b: usize, stale: u
                     .set("stale_digit_prefix", J::u(stale))
                     .set(
                         "reader_state",
-                        J::s(["1-byte reads", "1-byte reads, end of input already seen", "one read, end not seen", "one read, end of input already seen"][state as usize]),
+                        J::s(["1-byte reads", "1-byte reads, end of input already seen", "one read, end not seen", "one read, end of input already seen", "1-byte reads from a source that fails after the data", "one read, source failed after the data, error pending"][state as usize]),
                     )
                     .set("problems", J::A(bad.into_iter().map(J::s).collect())),
             );
@@ -225,6 +232,9 @@ fn eval_state(rep: &mut Report, t: usize, s: &[u8], o: usize, b: usize, stale: u
         );
         if state == 1 || state == 3 {
             rep.inc("evals_on_reader_that_has_seen_the_end");
+        }
+        if state >= 4 {
+            rep.inc("evals_with_a_source_that_fails_after_the_data");
         }
         if rep.want_sample() && end - o > 9 {
             rep.sample(|| {
@@ -563,8 +573,8 @@ impl Monitor for C13 {
                     }
                 }
                 // the other reader states: end of input already seen / everything from one read
-                for state in 1..4u8 {
-                    let b = if state == 1 { rng.usize(bmax + 1) } else { 0 };
+                for state in 1..6u8 {
+                    let b = if state == 1 || state == 4 { rng.usize(bmax + 1) } else { 0 };
                     eval_state(rep, t, &full, o, b, stale, 0xf, state);
                 }
             }
